@@ -22,7 +22,8 @@ JudgeOne(form, got, exp) == IF (exp = "T" /\ ~got) \/ (exp = "F" /\ got) THEN Ba
 Judge(L) ==
    IF L.pan THEN <<[i |-> c, kind |-> "panic", loc |-> <<"panic">>]>> ELSE
    LET e == FM(L.spec, L.data) IN
-   JudgeOne("nested", L.mn, e) \o JudgeOne("dotted", L.md, e) \o JudgeOne("gen-data", L.mg, e) \o JudgeOne("reused", L.m2, e)
+   (IF L.mn = L.md /\ L.md = L.mg /\ L.mg = L.m2 THEN JudgeOne("all-forms", L.mn, e)          \* one record when the four ways agree
+    ELSE JudgeOne("nested", L.mn, e) \o JudgeOne("dotted", L.md, e) \o JudgeOne("gen-data", L.mg, e) \o JudgeOne("reused", L.m2, e))
    \o (IF L.mn # L.md THEN <<[i |-> c, kind |-> "forms-differ", loc |-> <<"dotted-vs-nested">>]>> ELSE <<>>)
    \o (IF ~Same(L.spec, L.simp) THEN <<[i |-> c, kind |-> "simplify-differs", loc |-> <<"simplify">>]>> ELSE <<>>)
 
